@@ -6,7 +6,7 @@ firstlast_splicing, slice, tscale) with ns, nswin, overlap as z3 Ints.
 """
 import z3
 
-from symex import arrays, core, larr
+from symex import arrays, core, larr, stubs
 from symex.core import SInt, all_, and_, implies, mkbool, or_
 from symex.harness import Case, Twin
 
@@ -154,6 +154,56 @@ def case_splicing(ctx, K, overlap):
     return n
 
 
+def case_valid_interleaved(ctx, K, other):
+    """two generators of ONE WindowGenerator advanced in lock-step (the usual `zip(wg.firstlast_valid, wg.<other>)` loop):
+    the valid ranges must still tile [0, ns)"""
+    import ibldsp.utils as u
+    ns, nswin, ov = _inputs(ctx, K)
+    h = ctx.int("half_overlap", 0, 10 ** 5)
+    ctx.assume(core.eq(ov, 2 * h))
+    wg = u.WindowGenerator(ns, nswin, ov)
+    second = wg.firstlast if other == "firstlast" else wg.slice
+    out = []
+    for tup, _ in zip(wg.firstlast_valid, second):
+        out.append(tup)
+        if len(out) > K:
+            raise core.BoundExceeded("more windows than the stated bound K")
+    n = len(out)
+    ctx.oblige("valid_starts_at_zero", core.eq(out[0][2], 0))
+    ctx.oblige("valid_ends_at_ns", core.eq(out[-1][3], ns), detail={"last_valid": out[-1][3]})
+    for k in range(n):
+        f, l, fv, lv = out[k]
+        ctx.oblige("valid_inside_window", and_(f <= fv, lv <= l))
+        if k < n - 1:
+            ctx.oblige("valid_tiles", core.eq(lv, out[k + 1][2]), detail={"k": k})
+    return n
+
+
+def case_splicing_collected(ctx, nswin, overlap, K):
+    """all (first, last, amp) triples are collected first (list(wg.firstlast_splicing)) and used afterwards: every amplitude
+    vector must still be the one of its window.  Window length and overlap concrete (real NumPy views), ns symbolic."""
+    import ibldsp.utils as u
+    ns = ctx.int("ns", 1, nswin + (K - 1) * (nswin - overlap))
+    ws = [ctx.real(f"w{i}", 0, 1) for i in range(overlap)]
+    for i in range(overlap):
+        ctx.assume(core.eq(ws[i] + ws[overlap - 1 - i], 1))
+
+    def fake_hann(M, sym=True):
+        assert M == (overlap + 1) * 2 + 1 and sym
+        return arrays.mk([0.0] + ws + [1.0] + ws[::-1] + [0.0])
+    u.scipy = stubs.Namespace(__import__("scipy"), signal=stubs.Namespace(__import__("scipy").signal, windows=stubs.Namespace(__import__("scipy").signal.windows, hann=fake_hann)))
+    wg = u.WindowGenerator(ns, nswin, overlap)
+    items = ctx.call("collect", lambda: list(wg.firstlast_splicing))
+    t = ctx.int("t", 0)
+    ctx.assume(t < ns)
+    total = 0
+    for first, last, amp in items:
+        ctx.oblige("amp_length_is_window_length", core.eq(amp.shape[0], last - first), detail={"first": first, "last": last})
+        if bool(and_(first <= t, t < last)):
+            total = total + amp[t - first]
+    ctx.oblige("collected_amplitudes_sum_to_one", core.eq(total, 1), detail={"sum": total, "nwindows": len(items)})
+
+
 def case_nwin_ieee(ctx, bits_ns, bits_win):
     """the announced count, with the float formula evaluated in IEEE double arithmetic (cvc5), equals the produced count"""
     from symex import fp
@@ -184,6 +234,10 @@ def cases(tier):
     cs = [Case("firstlast", "case_firstlast", {"K": K}), Case("valid", "case_valid", {"K": K})]
     for ov in bounds(tier)["splicing_overlaps"]:
         cs.append(Case(f"splicing_ov{ov}", "case_splicing", {"K": min(K, 6 if tier == "quick" else 10), "overlap": ov}, timeout_s=3000))
+    for other in ("firstlast", "slice"):
+        cs.append(Case(f"valid_interleaved_with_{other}", "case_valid_interleaved", {"K": min(K, 8), "other": other}))
+    for (nw, ov) in ((6, 2), (5, 0)) if tier == "quick" else ((6, 2), (5, 0), (8, 4), (7, 2), (9, 3)):
+        cs.append(Case(f"splicing_collected_w{nw}_ov{ov}", "case_splicing_collected", {"nswin": nw, "overlap": ov, "K": 4}, timeout_s=1500))
     b = (6, 4) if tier == "quick" else (9, 6)     # lengths below 2^b[0], windows below 2^b[1]
     cs.append(Case(f"nwin_ieee_{b[0]}_{b[1]}", "case_nwin_ieee", {"bits_ns": b[0], "bits_win": b[1]}, timeout_s=3000))
     return cs
@@ -203,7 +257,7 @@ def twins(tier):
 
 def replay(case, params, cex):
     m = cex["model"]
-    ns, nswin, ov = m["ns"], m["nswin"], m.get("overlap", params.get("overlap"))
+    ns, nswin, ov = m["ns"], m.get("nswin", params.get("nswin")), m.get("overlap", params.get("overlap"))
     body = f"""
 from ibldsp.utils import WindowGenerator
 ns, nswin, overlap = {ns}, {nswin}, {ov}
@@ -241,6 +295,34 @@ print('windows', wins[:8], 'nwin', wg.nwin, 'produced', n)
 if obligation in bad: reproduced(f'{obligation} fails for ns={ns} nswin={nswin} overlap={overlap}: nwin={wg.nwin} produced={n}')
 not_reproduced(str(bad))
 """ % m.get("fs", 1)
+    elif case.startswith("valid_interleaved"):
+        body += f"""
+other = {params['other']!r}
+out = [a for a, _ in zip(wg.firstlast_valid, wg.firstlast if other == 'firstlast' else wg.slice)]
+bad = []
+if out[0][2] != 0: bad.append('valid_starts_at_zero')
+if out[-1][3] != ns: bad.append('valid_ends_at_ns')
+for k, (f, l, fv, lv) in enumerate(out):
+    if not (f <= fv and lv <= l): bad.append('valid_inside_window')
+    if k < len(out) - 1 and lv != out[k + 1][2]: bad.append('valid_tiles')
+print(out[:8])
+if obligation in bad: reproduced(f'{{obligation}} fails for ns={{ns}} nswin={{nswin}} overlap={{overlap}} when firstlast_valid is advanced together with wg.{{other}}: {{out[:6]}}')
+not_reproduced(str(bad))
+"""
+    elif case.startswith("splicing_collected"):
+        body = f"""
+from ibldsp.utils import WindowGenerator
+ns, nswin, overlap, t = {ns}, {params['nswin']}, {params['overlap']}, {m.get('t', 0)}
+wg = WindowGenerator(ns, nswin, overlap)
+items = list(wg.firstlast_splicing)
+tot = np.zeros(ns)
+for first, last, amp in items:
+    if len(amp) != last - first: reproduced(f'amplitude vector of window ({{first}}, {{last}}) has {{len(amp)}} entries')
+    tot[first:last] += amp
+print(tot)
+if not np.allclose(tot, 1): reproduced(f'amplitudes collected with list(wg.firstlast_splicing) sum to {{tot.tolist()}} for ns={{ns}} nswin={{nswin}} overlap={{overlap}}')
+not_reproduced()
+"""
     elif case == "valid":
         body += """
 out = list(wg.firstlast_valid)
